@@ -1632,12 +1632,15 @@ def compare(code, spec, what="result", hyps=()):
             if st == "refuted":
                 return "refuted", f"{what}: extent of axis {i}: code {code.shape[i]} vs spec {spec.shape[i]}", m
             return "unknown", f"{what}: extent of axis {i} undecided", None
-    per_axis = [fresh_cases(d, f"i{i}") for i, d in enumerate(spec.dims)]
+    # per axis, index cases are generated from the finer structure (the one that is not a bare Atom)
+    from_code = [isinstance(sd, Atom) and not isinstance(cd, Atom) for sd, cd in zip(spec.dims, code.dims)]
+    per_axis = [fresh_cases(cd if fc else sd, f"i{i}") for i, (sd, cd, fc) in enumerate(zip(spec.dims, code.dims, from_code))]
     n = 0
     for combo in itertools.product(*per_axis):
-        sidx = [c[0] for c in combo]
+        raw = [c[0] for c in combo]
         hy = [h for c in combo for h in c[1]] + list(hyps)
-        cidx = [conv_idx(sd, ix, cd) for sd, ix, cd in zip(spec.dims, sidx, code.dims)]
+        sidx = [conv_idx(cd, ix, sd) if fc else ix for sd, ix, cd, fc in zip(spec.dims, raw, code.dims, from_code)]
+        cidx = [ix if fc else conv_idx(sd, ix, cd) for sd, ix, cd, fc in zip(spec.dims, raw, code.dims, from_code)]
         sym.CTX.hyps.extend(hy)
         try:
             if not sym.feasible():
